@@ -20,7 +20,8 @@ def generic_run(tier, seed, drv, *, monitors_on, corr, nested=True, flat=True, c
         if tweak:
             scn = tweak(scn, rng)
         SC.stats_into(res, scn)
-        for j, b in enumerate(buses):
+        # every third scenario also on tickit's own in-memory state interface (the real InternalStateServer)
+        for j, b in enumerate(tuple(buses) + (("internal",) if i % 3 == 0 else ())):
             sd = rng.randrange(1 << 30)
             run = run_scenario(scn, bus=b, seed=sd)
             nupd = len(run["trace"].of("update"))
